@@ -305,7 +305,9 @@ async fn term(a: &[String]) -> Vec<String> {
     let code = arg(a, 3).parse::<u64>().unwrap_or(0);
     let reason = unhex_lenient(arg(a, 4));
     let when = arg(a, 5).to_string();
-    const STYLES: [&str; 13] = [
+    const STYLES: [&str; 15] = [
+        "raw_fin",
+        "raw_reset",
         "capsule",
         "capsule_fin",
         "fin",
@@ -395,8 +397,10 @@ async fn term(a: &[String]) -> Vec<String> {
     let mut dropped_all = false;
     match style.as_str() {
         "capsule" | "capsule_fin" | "capsule_short" | "capsule_long" | "capsule_bad_utf8"
-        | "fin" | "reset" | "fin_mid_frame" => {
+        | "fin" | "reset" | "fin_mid_frame" | "raw_fin" | "raw_reset" => {
             let bytes: Vec<u8> = match style.as_str() {
+                // arbitrary bytes on the CONNECT stream, then its end
+                "raw_fin" | "raw_reset" => reason.clone(),
                 "capsule" | "capsule_fin" => close_capsule(code as u32, &reason),
                 "capsule_short" => close_capsule_frame(&(code as u32).to_be_bytes()[..3]),
                 "capsule_long" => close_capsule(code as u32, &vec![0x61u8; 1025]),
@@ -413,10 +417,10 @@ async fn term(a: &[String]) -> Vec<String> {
                         }
                     }
                     match style.as_str() {
-                        "capsule_fin" | "fin" | "fin_mid_frame" => {
+                        "capsule_fin" | "fin" | "fin_mid_frame" | "raw_fin" => {
                             let _ = s.finish();
                         }
-                        "reset" => {
+                        "reset" | "raw_reset" => {
                             let _ = s.reset(quinn::VarInt::from_u32(77));
                         }
                         _ => {}
@@ -1788,6 +1792,67 @@ fn gen_c04(thorough: bool, rng: &mut Rng, emit: &mut dyn FnMut(&str, Vec<String>
                 }
             }
         }
+        // arbitrary CONNECT-stream content, then FIN / RESET: frames that are skipped rather than
+        // buffered (unknown types, over-long reserved types) cut on and around the skip buffer's
+        // chunk boundaries, complete ignorable frames before a clean end or before a capsule,
+        // buffered frames cut inside header / payload
+        let mut raws: Vec<Vec<u8>> = vec![];
+        let frame_head = |ty: u64, len: u64| {
+            let mut v = wire::varint(ty);
+            v.extend(wire::varint(len));
+            v
+        };
+        for (ty, len) in [(0x42u64, 300u64), (0x42, 600), (0x21, 5000), (0x21 + 0x1f * 7, 4097), (0x0d, 300)] {
+            let mut cuts: Vec<u64> = vec![0, 1, 255, 256, 257, 512, len - 1];
+            cuts.push(rng.below(len));
+            if !thorough {
+                // two of the fixed cuts and the random one per kind
+                let i = rng.below(3) as usize;
+                cuts = vec![cuts[i * 2], 256, *cuts.last().unwrap()];
+            }
+            for c in cuts {
+                if c >= len {
+                    continue;
+                }
+                let mut v = frame_head(ty, len);
+                v.extend(std::iter::repeat(0x5a).take(c as usize));
+                raws.push(v);
+            }
+        }
+        // header cut inside the length varint of an unknown frame
+        raws.push(vec![0x40, 0x42, 0x41]);
+        // complete ignorable frames, then nothing / a capsule / a cut capsule frame
+        let mut whole = frame_head(0x42, 300);
+        whole.extend(std::iter::repeat(0x11).take(300));
+        whole.extend(frame_head(0x21, 3));
+        whole.extend([1, 2, 3]);
+        raws.push(whole.clone());
+        let cap = close_capsule(rng.below(1 << 32) as u32, b"bye");
+        let mut with_cap = whole.clone();
+        with_cap.extend(&cap);
+        raws.push(with_cap);
+        let mut cut_cap = whole.clone();
+        cut_cap.extend(&cap[..cap.len() - 1 - rng.below(cap.len() as u64 - 1) as usize]);
+        raws.push(cut_cap);
+        // a HEADERS frame (skipped by the runner) cut in its payload
+        let mut hd = frame_head(0x01, 40);
+        hd.extend([0u8; 17]);
+        raws.push(hd);
+        for (i, raw) in raws.iter().enumerate() {
+            let when = whens[(i + k) % 3];
+            if thorough {
+                for rt in RTS {
+                    term(emit, rt, side, "raw_fin", 0, raw, when);
+                }
+                term(emit, RTS[i % 2], side, "raw_reset", 0, raw, when);
+            } else {
+                k += 1;
+                term(emit, RTS[k % 2], side, "raw_fin", 0, raw, when);
+                if i % 5 == 0 {
+                    term(emit, RTS[(k + 1) % 2], side, "raw_reset", 0, raw, when);
+                }
+            }
+        }
     }
 }
 
@@ -1987,6 +2052,9 @@ fn gen_c12(thorough: bool, _rng: &mut Rng, emit: &mut dyn FnMut(&str, Vec<String
         fixed.push((side, format!("std_settings;uni:02;fin:1;{end}")));
         fixed.push((side, format!("std_settings;uni:03;reset:1:9;{end}")));
         fixed.push((side, s("unifin:00")));
+        // a stream ended before a single byte of it (an abandoned opening): nobody's business
+        fixed.push((side, format!("std_settings;unifin:-;reqfin:-;{end}")));
+        fixed.push((side, format!("unifin:-;std_settings;unifin:-;{end};unifin:-")));
         // SETTINGS contents
         fixed.push((side, format!("ctrl:0004020200;{end}")));
         for reserved in [0u64, 3, 4, 5] {
